@@ -1,18 +1,21 @@
 """C11 - Config and secrets are released only to the identity entitled to them.
 
-Proof: lean/IstioModel/C11/Theorems.lean (identity binding) + SdsTheorems.lean (resource-name parsing, SDS release
-soundness, cache-key injectivity, non-interference over arbitrary request histories on a shared cache).
+Proof: lean/IstioModel/C11/Theorems.lean (identity binding), ParseTheorems.lean (resource-name parsing, cache-key
+injectivity), SdsTheorems.lean (SDS release soundness, non-interference over arbitrary request histories on a shared
+cache), RefsTheorems.lean (how mergeGateways fills VerifiedCertificateReferences: same namespace or granted).
 Tie: T-diff - the real spiffe.ParseIdentity / checkConnectionIdentity / authenticate / initProxyMetadata+authorize
-(stream auth), credentials.ParseResourceName + Key (stream parse) and the real SecretGen.Generate over
-kube.NewFakeClient credential controllers with fake SubjectAccessReview outcomes and one shared XdsCache
-(stream sds) vs the Lean model, same op lines, line by line.
+(stream auth); one real ADS and delta stream per op through DiscoveryServer.Stream / StreamDeltas on a
+FakeDiscoveryServer with a real peer context and fake authenticators (stream stream); credentials.ParseResourceName +
+Key (stream parse); the real mergeGateways (stream refs); the real SecretGen.Generate over kube.NewFakeClient
+credential controllers with a fake SubjectAccessReview authoriser and one shared XdsCache (stream sds) vs the Lean
+model, same op lines, line by line.
 On break: harness `oracle` evaluates the property on the real responses ("private key present => requester
 entitled", answer independent of history), without the Lean model.
 """
 import os
 
-THEOREMS = ["IstioModel.C11.Theorems", "IstioModel.C11.SdsTheorems"]
-STREAMS = ("auth", "parse", "sds")
+THEOREMS = ["IstioModel.C11.Theorems", "IstioModel.C11.ParseTheorems", "IstioModel.C11.SdsTheorems", "IstioModel.C11.RefsTheorems"]
+STREAMS = ("auth", "stream", "parse", "refs", "sds")
 
 
 def _case_of(ctx, ops, i):
@@ -55,20 +58,30 @@ def oracle(ctx, stream, case_lines, rep, wide=True):
 def run(ctx):
     ctx.rule = ("cases = (auth) 1-6 ops: ParseIdentity / checkConnectionIdentity / authenticate / initProxyMetadata+authorize on "
                 "claimed node ids, metadata namespace/service account and credential lists (well-formed, malformed, multi, empty, nil); "
-                "(parse) ParseResourceName on names from a URI grammar with hostile segments; (sds) a random secret world (1-2 clusters x 3 "
+                "(stream) 1-4 real ADS/delta streams: flags, peer none/plaintext/TLS, 0-3 scripted authenticators, claimed node/metadata, SDS names; "
+                "(parse) ParseResourceName on names from a URI grammar with hostile segments; (refs) 1-3 Gateway configs (namespace, "
+                "service-account / parent-namespace / parents annotations, 1-3 servers with credentialName(s), TLS mode, caCertCredentialName), "
+                "random grants, 2-4 differently verified proxies through the real mergeGateways; (sds) a random secret world (1-2 clusters x 3 "
                 "namespaces x 5 secrets + config maps, random SubjectAccessReview outcomes), 2-4 differently privileged proxies and 3-10 "
                 "Generate requests (forced / incremental / nil) plus cache clears on ONE shared cache; distinct = hash of (ops, "
                 "implementation outputs); non-trivial = at least one op")
     ctx.assumptions = [
         "Kubernetes RBAC (SubjectAccessReview) is an abstract function authz(serviceAccount, namespace) per cluster; its 1-5 minute result cache in "
         "CredentialsController is sound because the outcome is constant during a case",
-        "MergedGateway.VerifiedCertificateReferences (ReferenceGrant evaluation, gateway merging) is an input set",
+        "ReferenceGrant evaluation (PushContext.SecretAllowed) is an abstract predicate; which Gateway configs attach to a proxy (selectors, "
+        "service instances) is an input of the refs stream",
+        "the namespace comparison of checkConnectionIdentity is skipped when the proxy claims no namespace at all (no NAMESPACE metadata and a "
+        "dot-less DNS domain): identity_binding binds the namespace only when ConfigNamespace is non-empty; such a proxy is treated as namespace \"\"",
+        "proxy.Metadata.ClusterID is client-claimed: RBAC is evaluated in the claimed (configured) cluster and kubernetes:// lookups fall back to the "
+        "config cluster's same-named namespace without consulting the config cluster's RBAC (modelled as the code does)",
         "namespaces, service accounts and cluster ids contain no '/' (used only by the cache-key injectivity theorem; ParseIdentity guarantees it for the "
         "verified namespace)",
         "no private-key-provider (cryptomb/qat) proxy config; CRL / OCSP staple fields are not part of the compared view",
         "TLS termination / certificate validation that produce the credential identity list (security.Authenticators) are inputs",
     ]
     ctx.trusted.append("pilot/pkg/xds/zz_verif_c11.go (verif-tagged accessors for initProxyMetadata, authenticate, authorize, checkConnectionIdentity)")
+    ctx.trusted.append("pilot/pkg/model/zz_verif_c11.go (verif-tagged accessor for mergeGateways)")
+    ctx.trusted.append("pilot/test/xds FakeDiscoveryServer and the harness' fake gRPC server streams standing in for the gRPC transport")
     ctx.trusted.append("client-go fake clientset / istio kube.NewFakeClient informers standing in for the Kubernetes API server")
     mods = [m for m in THEOREMS if os.path.exists(os.path.join(os.path.dirname(os.path.dirname(os.path.abspath(__file__))),
                                                                 "lean", m.replace(".", "/") + ".lean"))]
@@ -78,8 +91,10 @@ def run(ctx):
     if not ctx.go_build():
         return
     ctx.diff_stream("auth", ctx.n(4000, 60000), oracle=oracle)
+    ctx.diff_stream("stream", ctx.n(300, 4000), oracle=oracle)
     ctx.diff_stream("parse", ctx.n(3000, 60000), oracle=oracle)
-    ctx.diff_stream("sds", ctx.n(800, 8000), oracle=oracle)
+    ctx.diff_stream("refs", ctx.n(3000, 60000), oracle=oracle)
+    ctx.diff_stream("sds", ctx.n(700, 8000), oracle=oracle)
     # second line: the property oracle on every generated and corpus case, independent of the model
     for stream in STREAMS:
         files = []
@@ -134,18 +149,29 @@ def replay(ctx, path):
 
 
 MANIFEST = {
-    "level_text": ("Lean 4 proof over an exact model of authorize/checkConnectionIdentity/ParseIdentity/GetProxyConfigNamespace and of "
+    "level_text": ("Lean 4 proof over an exact model of authenticate/authorize/checkConnectionIdentity/ParseIdentity/GetProxyConfigNamespace, of "
                    "SecretGen.Generate (identity check -> sdsNeedsPush -> parseResources -> filterAuthorizedResources -> incremental filter -> "
-                   "cache.Get -> generate -> cache.Add), ParseResourceName, SecretResource.Key, the kube credential lookups and the multicluster "
-                   "aggregate: identity_binding (accepted => VerifiedIdentity is a presented credential proving the claimed namespace and service "
-                   "account), sds_release_sound (private key returned => kubernetes:// in the verified namespace and authorised, or "
-                   "kubernetes-gateway:// with the exact requested name verified; unverified proxy gets nothing), parse_namespace_binding, "
-                   "key_injective and sds_noninterference (over every interleaved request history on a shared cache the answer equals the "
-                   "cache-free specification). The model is tied to /repo on every run by a line-by-line differential against the real functions."),
+                   "cache.Get -> generate -> cache.Add), ParseResourceName, SecretResource.Key, the kube credential lookups, the multicluster "
+                   "aggregate and the VerifiedCertificateReferences computation of mergeGateways: identity_binding (accepted => VerifiedIdentity is "
+                   "a presented credential proving the claimed service account and - whenever the proxy claims a namespace - that namespace), "
+                   "sds_release_sound (private key returned => kubernetes:// in the verified namespace and authorised, or kubernetes-gateway:// "
+                   "with the exact requested name verified; unverified proxy gets nothing), refs_sound / gateway_release_bound (a verified "
+                   "reference exists only for the verified identity a Gateway expects and names its own namespace or is granted), "
+                   "parse_namespace_binding, key_injective and sds_noninterference (over every interleaved request history on a shared cache the "
+                   "answer equals the cache-free specification). The model is tied to /repo on every run by a line-by-line differential against "
+                   "the real functions, including real ADS and delta streams through DiscoveryServer.Stream/StreamDeltas."),
     "level_note": ("Trusted: Lean kernel + {propext, Classical.choice, Quot.sound}; the hand-written model (tied by differential testing: streams auth, "
-                   "parse, sds on the real code, ~7800 cases quick / 128000 thorough); the verif-tagged accessor file pilot/pkg/xds/zz_verif_c11.go; client-go fakes. "
-                   "Kubernetes RBAC is an abstract authz function, VerifiedCertificateReferences an input set; TLS authentication that yields the "
-                   "identity list is an input; private-key-provider configs, CRL/OCSP fields and secret updates with cache invalidation are not modelled."),
-    "technique": "Lean 4 theorems over an exact model of identity binding and SDS release + differential correspondence with the real Go functions",
+                   "stream, parse, refs, sds on the real code, ~11000 cases quick); the verif-tagged accessor files pilot/pkg/xds/zz_verif_c11.go and "
+                   "pilot/pkg/model/zz_verif_c11.go; client-go fakes and fake gRPC streams. Caveats: (1) a client that claims no namespace at all "
+                   "(no NAMESPACE metadata, dot-less DNS domain) is accepted with any parsable credential and treated as namespace \"\" - the "
+                   "namespace half of identity_binding is conditional on a non-empty ConfigNamespace (its VerifiedIdentity, and hence SDS, is "
+                   "still the credential's); (2) an unauthenticated (plaintext, nil identities) stream skips the check and only secrets are "
+                   "withheld from it; (3) proxy.Metadata.ClusterID is client-claimed: RBAC is evaluated by the claimed configured cluster and "
+                   "kubernetes:// lookups fall back to the config cluster's namespace of the same name without that cluster's RBAC. Kubernetes "
+                   "RBAC is an abstract authz function checked through a fake SubjectAccessReview authoriser (exact attributes, API-error mode), "
+                   "ReferenceGrant evaluation (SecretAllowed) an abstract predicate, gateway-to-proxy attachment an input; TLS authentication that "
+                   "yields the identity list is an input; private-key-provider configs, CRL/OCSP fields and secret updates with cache "
+                   "invalidation are not modelled."),
+    "technique": "Lean 4 theorems over an exact model of identity binding, verified-reference computation and SDS release + differential correspondence with the real Go functions and real xDS streams",
     "design_ref": "DESIGN.md section 5 C11",
 }
